@@ -81,6 +81,23 @@ func famCache(r *rng) []string {
 		res = append(res, "hp = func(a){ a + 1 }", "cw = func(n){ hp(n) * 2 }", "println(cw(3), cw(3))",
 			"tot2 = 0", "ad = func(n){ t = tot2; tot2 = t + n; tot2 }", "println(ad(2), ad(2), tot2)")
 	}
+	if r.intn(3) == 0 { // a call that WRITES an outer variable holding a function (fixed 0f2eeb4: such a call used to be stored and
+		// a later hit skipped the write): by assignment of a function, of a plain value, by an inner named function, after
+		// reading it, by del; called twice with equal arguments with the variable restored in between
+		a := 1 + r.intn(5)
+		defT := pickS(r, "tg = func(){1}", "func tg(){1}", "tg = () => 1")
+		wr := pickS(r,
+			"wr = func(x){ tg = func(){2}; x }",
+			"wr = func(x){ tg = x; x }",
+			"func wr(x){ func tg(){2}; x }",
+			"wr = func(x){ h = tg; tg = func(){ h() + x }; x }",
+			"wr = func(x){ del(tg); x }",
+			"wr = func(x){ in = func(){ tg = func(){x} }; in(); x }")
+		// never the wording of an error, neither printed nor left in a global
+		obs := fmt.Sprintf("println(catch(tg()).err, catch(tg()).value == 1, catch(tg()).value == 2, catch(tg()).value == %d, catch(tg()).value == %d)", a, a+1)
+		res = append(res, defT, wr, fmt.Sprintf("wr(%d)", a), obs, defT, fmt.Sprintf("wr(%d)", a), obs,
+			fmt.Sprintf("tg = %d", a), fmt.Sprintf("wr(%d)", a), obs)
+	}
 	res = append(res, call)
 	return res
 }
